@@ -496,6 +496,7 @@ package whispertool
 //@ loop (*Whisper).fetchRawPoints#2
 //@   invariant cnt: 0 <= i && i <= len(points) && off <= untilOffset && (i == len(points) || off == arcStartOffset + 12 * (i - (arcEndOffset - fromOffset) / 12))
 //@   invariant i_low: (arcEndOffset - fromOffset) / 12 <= i || i == len(points)
+//@   invariant k1: arcEndOffset - fromOffset == 12 * ((arcEndOffset - fromOffset) / 12) && arcStartOffset == archOf(w, archiveID).offset
 //@   invariant read1: forall j :: 0 <= j && j < i && j < (arcEndOffset - fromOffset) / 12 ==> points[j].Time == slotTime(frow(w.fileBuf), fromOffset + 12 * j) && bits(points[j].Value) == slotBits(frow(w.fileBuf), fromOffset + 12 * j)
 //@   invariant read2: forall j :: (arcEndOffset - fromOffset) / 12 <= j && j < i ==> points[j].Time == slotTime(frow(w.fileBuf), arcStartOffset + 12 * (j - (arcEndOffset - fromOffset) / 12))
 //@                 && bits(points[j].Value) == slotBits(frow(w.fileBuf), arcStartOffset + 12 * (j - (arcEndOffset - fromOffset) / 12))
@@ -901,7 +902,8 @@ package whispertool
 //@   modifies ghost(nopen, 0), ghost(nlocked, 0)
 //@   allocates <= 1073741824 + 2 * 4294967295
 //@   ensures ok: result1 == nil ==> result0 != nil && fresh(result0) && handleLive(result0) && hdrInBuf(frow(result0.fileBuf), result0.header)
-//@                 && ghost(nopen, 0) == old(ghost(nopen, 0)) + 1
+//@                 && ghost(nopen, 0) == old(ghost(nopen, 0)) + 1 && fresh(result0.file) && fresh(result0.fileBuf)
+//@                 && ghost(nlocked, 0) == old(ghost(nlocked, 0)) + ghost(locked, result0.file)
 //@                 && (forall k :: 0 <= k && k < fsize(result0.fileBuf) ==> fbyte(result0.fileBuf, k) == dbyte(result0.file, k))
 //@   ensures[C13] no_leak: result1 != nil ==> result0 == nil && ghost(nopen, 0) == old(ghost(nopen, 0)) && ghost(nlocked, 0) == old(ghost(nlocked, 0))
 
@@ -917,7 +919,8 @@ package whispertool
 //@                 && result0.header.aggregationMethod == aggregationMethod && bits(result0.header.xFilesFactor) == bits(xFilesFactor)
 //@                 && result0.header.archiveInfoList === archiveInfoList && wellFormed(archiveInfoList)
 //@                 && fsize(result0.fileBuf) == fileEnd(archiveInfoList) && dsize(result0.file) == fileEnd(archiveInfoList)
-//@                 && ghost(nopen, 0) == old(ghost(nopen, 0)) + 1
+//@                 && ghost(nopen, 0) == old(ghost(nopen, 0)) + 1 && fresh(result0.file) && fresh(result0.fileBuf)
+//@                 && ghost(nlocked, 0) == old(ghost(nlocked, 0)) + ghost(locked, result0.file)
 //@   ensures[C13] no_leak: result1 != nil ==> result0 == nil && ghost(nopen, 0) == old(ghost(nopen, 0)) && ghost(nlocked, 0) == old(ghost(nlocked, 0))
 //@   ensures[C07] invalid: !(1 <= aggregationMethod && aggregationMethod <= 6 && 0.0 <= xFilesFactor && xFilesFactor <= 1.0 && wellFormed(archiveInfoList)) ==> result1 != nil
 
